@@ -83,7 +83,7 @@ fn xproc_scenario<C: Suite>(seed: u64) -> Option<(BTreeMap<String, (Vec<u8>, Str
 fn xproc_save<C: Suite>(ctx: &mut Ctx) {
     let Some((st, ex)) = xproc_scenario::<C>(ctx.seed) else { return ctx.viol("honest-run-failed", "cross-process", json!({})) };
     let file = ctx.out_dir.join(format!("C13.xproc.{}.{}.json", C::NAME, ctx.shard));
-    let v = json!({"suite": C::NAME, "seed": ctx.seed, "saver_prelude": ctx.notes.get("prelude_suite"),
+    let v = json!({"suite": C::NAME, "seed": ctx.seed, "saver_prelude": ctx.notes.get("prelude_suite"), "saver_profile": std::env::var("FV_PROFILE_NAME").ok(),
         "states": st.iter().map(|(k, (b, j))| (k.clone(), json!({"bin": hex::encode(b), "json": j}))).collect::<serde_json::Map<_, _>>(),
         "expected": ex.iter().map(|(k, b)| (k.clone(), json!(hex::encode(b)))).collect::<serde_json::Map<_, _>>()});
     std::fs::write(file, serde_json::to_vec(&v).unwrap()).ok();
@@ -96,7 +96,7 @@ pub fn xproc_resume<C: Suite>(ctx: &mut Ctx, file: &str) {
     ctx.item(&format!("cross-process resume of {file}"));
     let here = ctx.notes.get("prelude_suite").cloned();
     for how in ["bin", "json"] {
-        let d = |what: &str, extra: serde_json::Value| json!({"what": what, "encoding": how, "saved_by_process_with_prelude": v["saver_prelude"], "resumed_in_process_with_prelude": here, "extra": extra});
+        let d = |what: &str, extra: serde_json::Value| json!({"what": what, "encoding": how, "saved_by_process_with_prelude": v["saver_prelude"], "resumed_in_process_with_prelude": here, "saver_profile": v["saver_profile"], "resumer_profile": std::env::var("FV_PROFILE_NAME").ok(), "extra": extra});
         macro_rules! get {
             ($k:expr, $t:ty) => {{
                 let e = &v["states"][$k];
